@@ -1834,6 +1834,8 @@ impl HashColumn {
 
 	pub fn drop_index(&self, id: IndexTableId) -> Result<()> {
 		log::debug!(target: "parity-db", "Dropping {}", id);
+		#[cfg(parity_db_verif)]
+		crate::verif::yield_point(crate::verif::SITE_DROP_INDEX);
 		let mut reindex = self.reindex.write();
 		if reindex.queue.front_mut().map_or(false, |e| {
 			if let ReindexEntry::Index(t) = e {
@@ -1882,6 +1884,33 @@ impl HashColumn {
 		}
 		log::debug!(target: "parity-db", "Dropped ref count {}", id);
 		Ok(())
+	}
+
+	#[cfg(parity_db_verif)]
+	pub fn verif_status(&self) -> crate::db::VerifColumnStatus {
+		let tables = self.tables.read();
+		let reindex = self.reindex.read();
+		crate::db::VerifColumnStatus {
+			index_bits: Some(tables.index.id.index_bits()),
+			reindex_index_bits: reindex
+				.queue
+				.iter()
+				.filter_map(|e| if let ReindexEntry::Index(t) = e { Some(t.id.index_bits()) } else { None })
+				.collect(),
+			reindex_ref_count_bits: reindex
+				.queue
+				.iter()
+				.filter_map(|e| {
+					if let ReindexEntry::RefCount(t) = e {
+						Some(t.id.index_bits())
+					} else {
+						None
+					}
+				})
+				.collect(),
+			reindex_progress: reindex.progress.load(Ordering::Relaxed),
+			ref_count_bits: tables.ref_count.as_ref().map(|t| t.id.index_bits()),
+		}
 	}
 
 	pub fn get_num_value_entries(&self) -> Result<u64> {
